@@ -16,7 +16,8 @@ EXPLANATION = (
     'are not looked up in the cells map and the ranges of the extracted model are populated; (C13.3) every object found '
     'in the extracted model after the run is a copy.deepcopy (identity-preserving model) of the original\'s object and still '
     'carries its formula, and extract() stores nothing into the original model; (C13.5) set_cell_value/get_cell_value write and read through the cells map (names and cells are '
-    'separate copies in the extracted model), so the same input change has the same effect on both models; (C13.4) focus entries are taken from cells and from defined names, and the extracted model is compiled.')
+    'separate copies in the extracted model), so the same input change has the same effect on both models; (C13.4) focus entries are taken from cells and from defined names, and the extracted model is compiled.'
+    ' (C13.2) also: references to cells the model does not hold and defined names used in focused formulas; (C13.6) the terms extract() follows are those of the formula itself: own text, own sheet, nothing carried over between formulas of equal text.')
 NOT_DECIDED = 'value equality after arbitrary input changes'
 TRUSTED = ['copy.deepcopy yields an independent object graph']
 
